@@ -255,8 +255,10 @@ def oracle(c, init, steps):
     prev = V(c, init)
     ulp = Fraction(1, P)
     # closed form of the schedule applies to consecutive histories of the mint identifier that begin no later than the start epoch
+    # (or within the first period after it with the marker still on the start epoch)
     mint_calls = [cl["e"] for cl in c["calls"] if cl["id"] == 0]
-    consecutive = bool(mint_calls) and mint_calls[0] <= start and all(b == a + 1 for a, b in zip(mint_calls, mint_calls[1:]))
+    consecutive = (bool(mint_calls) and all(b == a + 1 for a, b in zip(mint_calls, mint_calls[1:])) and
+                   (mint_calls[0] <= start or (mint_calls[0] <= start + period and prev.last == start)))
     failed_before = False
     for j, (cl, st) in enumerate(zip(c["calls"], steps)):
         status, cur = st[0], V(c, st[1:])
